@@ -492,7 +492,7 @@ Verdict run_case(Case const& c, Ctx& ctx)
 	struct UdpSend { long long at_us; int from, to, size; bool df; udp::endpoint src, dst; bool on_wire; };
 	std::vector<UdpSend> usends;
 	for (auto r : c.all("udp"))
-		if (c19 && r->a.size() >= 5 && r->a[0] >= 0 && r->a[0] <= 30000000 && r->a[3] >= 1 && r->a[3] <= 65507 && usends.size() < 60)
+		if (c19 && r->a.size() >= 5 && r->a[0] >= 0 && r->a[0] <= 20000000000LL && r->a[3] >= 1 && r->a[3] <= 65507 && usends.size() < 60)
 			usends.push_back(UdpSend{r->a[0], int(((r->a[1] % nn) + nn) % nn), int(r->a[2]), int(r->a[3]), r->a[4] != 0, udp::endpoint(), udp::endpoint(), false});
 	std::stable_sort(usends.begin(), usends.end(), [](UdpSend const& a, UdpSend const& b) { return a.at_us < b.at_us; });
 	std::vector<Run::PairLog> pairs_copy;
@@ -909,7 +909,7 @@ rc::Gen<Case> gen_c20()
 rc::Gen<Case> gen_c19()
 {
 	auto fault = rc::gen::map(kit::weighted({{5, 0}, {3, 1}, {1, 2}}), [](long long a) { return a; });
-	auto udp = rc::gen::map(rc::gen::tuple(rc::gen::oneOf(kit::range(0, 3000000), kit::weighted({{2, 0}, {1, 999999}, {1, 1000000}, {1, 1000001}})), kit::range(0, 1), kit::range(0, 2), rc::gen::oneOf(kit::range(1, 3000), kit::weighted({{1, 1}, {1, 1472}, {1, 30000}, {1, 65507}})), kit::range(0, 1)),
+	auto udp = rc::gen::map(rc::gen::tuple(rc::gen::oneOf(kit::range(0, 3000000), kit::weighted({{2, 0}, {1, 999999}, {1, 1000000}, {1, 1000001}}), kit::weighted({{1, 4294967295LL}, {1, 4294967296LL}, {1, 4295000000LL}, {1, 8589934592LL}, {1, 9000000000LL}, {1, 2147483648LL}, {1, 3600000000LL}})), kit::range(0, 1), kit::range(0, 2), rc::gen::oneOf(kit::range(1, 3000), kit::weighted({{1, 1}, {1, 1472}, {1, 30000}, {1, 65507}})), kit::range(0, 1)),
 		[](std::tuple<long long, long long, long long, long long, long long> t) { return mk("udp", {std::get<0>(t), std::get<1>(t), std::get<2>(t), std::get<3>(t), std::get<4>(t)}); });
 	return rc::gen::map(rc::gen::tuple(kit::weighted({{2, 0}, {2, 20000}, {1, 200000}}), kit::weighted({{2, 1000}, {2, 30000}, {1, 400000}}),
 		rc::gen::container<std::vector<long long>>(fault), rc::gen::container<std::vector<long long>>(fault), rc::gen::container<std::vector<Rec>>(udp), kit::range(0, 2), kit::range(0, 9),
